@@ -349,5 +349,9 @@ class Registry(asset.Registry, alias='posix'):
                 raise asset.Level.Invalid(f'State {sid} not staged')
             target = self._path.state(sid, project, release, generation)
             source.rename(target)
-        with path.open('wb') as tagfile:
+        # the tag makes the generation listed - write it aside and rename into place so that an
+        # interrupted commit never leaves a listed generation with a partial tag behind
+        temp = path.with_name(f'.{path.name}.tmp')
+        with temp.open('wb') as tagfile:
             tagfile.write(tag.dumps())
+        temp.replace(path)
